@@ -458,33 +458,105 @@ def hs_decode(txt):
 
 # ---------------------------------------------------------------------------------------------------------
 # end to end: bytes of a version-2 dump -> PyKdebugParser.formatted_traces lines (driver command `e2e`)
+#
+# A case: the whole dump (`whole`), the bytes actually parsed (`file` = whole[:cut], or the whole dump when `cut` is
+# None), the offset of the first record (`hdr`), the thread map (`tmap`), whether the first record begins with a zero
+# byte (`k1`: the padding skipper eats it — known finding K1 of C02; the truncation claims hold for such dumps too),
+# filter settings and the six show_* switches.
 
-def e2e_case(rng):
-    from . import streams
-    s = Stream(rng)
-    s.ts = 256 * rng.randrange(1, 1000)           # the first record must not begin with a zero byte (K1)
-    tids = [rng.choice([5, 6, 7, 99, 1000]) for _ in range(3)]
-    for _ in range(rng.randrange(1, 8)):
-        add_operation(s, rng, tids)
-    recs = s.recs
-    if recs and recs[0][0] == 0:
-        recs = [bytes([1]) + recs[0][1:]] + recs[1:]
-    names = ['launchd', 'kernel_task', 'a', '', 'naïve', 'x' * 19]
-    tmap = [(t, rng.choice([1, 42, 77]), rng.choice(names)) for t in rng.sample(sorted(set(tids)), rng.randrange(0, len(set(tids)) + 1))]
-    data = streams.v2_file(tmap, recs)
-    cut = None
-    if rng.random() < 0.25:
-        cut = rng.randrange(0, len(data) + 1)
-        data = data[:cut]
+E2E_NAMES = ['launchd', 'kernel_task', 'a', '', 'naïve', 'x' * 19]
+E2E_CONFIGS = [
+    {'tid': None, 'classes': [], 'subs': [], 'proc': None},
+    {'tid': None, 'classes': [], 'subs': [], 'proc': '42'},
+    {'tid': None, 'classes': [4], 'subs': [], 'proc': None},
+    {'tid': None, 'classes': [], 'subs': [], 'proc': 'launchd'},
+    {'tid': 5, 'classes': [], 'subs': [0x040c], 'proc': None},
+    {'tid': None, 'classes': [7], 'subs': [], 'proc': '77'},
+]
+
+
+def v2_bytes(tmap, recs, pad=0, is64=1, tick=24000000):
+    """magic, header, thread map, `pad` zero bytes, records (written independently of the repository's layout)."""
+    import struct
+    out = [b'\x00\x02\xaa\x55', struct.pack('<I', len(tmap)), b'\x00' * 12, struct.pack('<I', is64),
+           struct.pack('<Q', tick), b'\x00' * 0x100]
+    for tid, pid, name in tmap:
+        nb = name.encode('utf-8')
+        assert len(nb) <= 19
+        out.append(struct.pack('<QI', tid, pid) + nb.ljust(20, b'\x00'))
+    out.append(b'\x00' * pad)
+    out += list(recs)
+    return b''.join(out)
+
+
+def e2e_random_config(rng, tids):
     r = rng.random()
     classes = [] if r < 0.5 else rng.choice([[4], [4, 7], [7], [3, 4], [1], [0x25], [4, 1], [0x1f]])
     subs = [] if rng.random() < 0.7 else rng.choice([[0x040c], [0x0140], [0x0701], [0x040c, 0x0140], [0x040e]])
     tid = None if rng.random() < 0.6 else rng.choice(tids + [0, 12345])
     proc = None if rng.random() < 0.7 else rng.choice(['launchd', '42', '77', '', '-1', 'a', 'nope'])
+    return {'tid': tid, 'classes': classes, 'subs': subs, 'proc': proc}
+
+
+def e2e_case(rng, cut='random', config=None, ops=None, k1=False, plain=0.0):
+    s = Stream(rng)
+    s.ts = 256 * rng.randrange(1, 1000)           # the first record must not begin with a zero byte (K1)
+    tids = [rng.choice([5, 6, 7, 99, 1000]) for _ in range(3)]
+    for _ in range(ops if ops is not None else rng.randrange(1, 8)):
+        add_operation(s, rng, tids)
+    recs = s.recs
+    if recs and recs[0][0] == 0:
+        recs = [bytes([1]) + recs[0][1:]] + recs[1:]
+    if k1 and recs:                               # timestamp with 1..3 low zero bytes: eaten by the padding skipper
+        z = rng.randrange(1, 4)
+        recs = [bytes(z) + bytes([rng.randrange(1, 256)]) + recs[0][z + 1:]] + recs[1:]
+    tmap = [(t, rng.choice([1, 42, 77]), rng.choice(E2E_NAMES))
+            for t in rng.sample(sorted(set(tids)), rng.randrange(0, len(set(tids)) + 1))]
+    if rng.random() < 0.2 and tmap:               # a later entry for the same thread / the same pid wins
+        tmap.append((tmap[0][0], rng.choice([1, 42, 77, 78]), rng.choice(E2E_NAMES)))
+    pad = rng.choice([0, 0, 0, 1, 4, 7, 12])
+    whole = v2_bytes(tmap, recs, pad)
+    hdr = len(whole) - 64 * len(recs)
+    k = None
+    if cut == 'random' and rng.random() < 0.25:
+        k = rng.randrange(0, len(whole) + 1)
+    if config is None:
+        config = E2E_CONFIGS[0] if rng.random() < plain else e2e_random_config(rng, tids)
     bits = ''.join(rng.choice('01') for _ in range(6))
     codes = restricted_codes(recs, extra=('VFS_LOOKUP',))
-    return {'codes': {str(k): v for k, v in codes.items()}, 'file': data.hex(), 'tid': tid, 'classes': classes, 'subs': subs,
-            'proc': proc, 'bits': bits, 'cut': cut}
+    c = {'codes': {str(kk): v for kk, v in codes.items()}, 'whole': whole.hex(), 'hdr': hdr, 'k1': bool(k1 and recs),
+         'tmap': [list(x) for x in tmap], 'bits': bits, 'cut': k}
+    c.update(config)
+    c['file'] = (whole if k is None else whole[:k]).hex()
+    return c
+
+
+def e2e_cut_offsets(c, every):
+    n, hdr = len(c['whole']) // 2, c['hdr']
+    if every:
+        return list(range(n + 1))
+    tm_end = 4 + 284 + 32 * len(c['tmap'])
+    ks = {0, 1, 3, 4, 5, 8, 20, 287, 288, 289, 300, tm_end - 33, tm_end - 1, tm_end, tm_end + 1, hdr - 1, hdr, hdr + 1, n - 1, n}
+    ks |= set(range(tm_end, hdr + 1))                                        # every cut inside the padding
+    for b in range(hdr, n + 1, 64):
+        ks |= {b - 13, b - 1, b, b + 1, b + 7, b + 8, b + 40, b + 47, b + 48, b + 50, b + 52, b + 63}
+    return sorted(k for k in ks if 0 <= k <= n)
+
+
+def e2e_cut_cases(rng, tier):
+    """A few small dumps cut at EVERY offset (thorough) / at every structural offset (quick): inside the magic, the header
+    fields, the thread map, the padding, and around every record boundary and field boundary of a record."""
+    out = []
+    ndumps = 3 if tier == 'quick' else 8
+    for j in range(ndumps):
+        cfg = E2E_CONFIGS[j] if j < len(E2E_CONFIGS) else None
+        base = e2e_case(rng, cut=None, config=cfg, ops=rng.randrange(1, 4), k1=(j % 3 == 2))
+        whole = bytes.fromhex(base['whole'])
+        for k in e2e_cut_offsets(base, every=(tier != 'quick')):
+            c = dict(base)
+            c['cut'], c['file'] = k, whole[:k].hex()
+            out.append(c)
+    return out
 
 
 def e2e_line(c):
@@ -494,33 +566,214 @@ def e2e_line(c):
         ','.join(map(str, c['subs'])) or '-', 'N' if c['proc'] is None else hs(c['proc']), c['bits'], c['file'] or '-')
 
 
-def e2e_impl(c):
-    import io
+def e2e_parser(c, proc='case'):
     from pykdebugparser.pykdebugparser import PyKdebugParser
     p = PyKdebugParser()
     p.color = False
-    p.filter_tid, p.filter_process = c['tid'], c['proc']
+    p.filter_tid, p.filter_process = c['tid'], (c['proc'] if proc == 'case' else proc)
     p.filter_class, p.filter_subclass = list(c['classes']), list(c['subs'])
     (p.show_timestamp, p.show_name, p.show_func_qual, p.show_tid, p.show_process, p.show_args) = [b == '1' for b in c['bits']]
+    return p
+
+
+def e2e_lines(c, data):
+    """(lines formatted_traces yields for `data` before it stops, name of the exception that stopped it or '-')."""
+    import io
+    p = e2e_parser(c)
     codes = {int(k): v for k, v in c['codes'].items()}
     lines, err = [], '-'
     try:
-        for ln in p.formatted_traces(io.BytesIO(bytes.fromhex(c['file'])), codes):
-            lines.append(hs(ln))
+        for ln in p.formatted_traces(io.BytesIO(data), codes):
+            lines.append(ln)
     except Exception as e:
         err = core.err_name(e)
-    return 'ok %s ;err=%s' % (' '.join(lines) or '-', err)
+    return lines, err
 
 
-def section_e2e(rep, rng, tier, n=None, oracle_fn=None):
+def e2e_impl(c):
+    lines, err = e2e_lines(c, bytes.fromhex(c['file']))
+    return 'ok %s ;err=%s' % (' '.join(hs(ln) for ln in lines) or '-', err)
+
+
+def e2e_parse_answer(got):
+    body, err = got[3:].rsplit(' ;err=', 1)
+    return ([] if body == '-' else [hs_decode(x) for x in body.split(' ')]), err
+
+
+def e2e_header_text(c, p, tid, ts):
+    """The header columns of a trace line, written from the property (not from `_format_trace`)."""
+    show_ts, _, _, show_tid, show_proc, _ = [b == '1' for b in c['bits']]
+    s = ''
+    if show_ts:
+        s += str(ts) + ' '
+    if show_tid:
+        s += str(tid).rjust(11) + ' '
+    if show_proc:
+        pid = p.threads_pids.get(tid)
+        txt = 'Error: tid %d' % tid if pid is None else '%s(%d)' % (p.pids_names.get(pid, ''), pid)
+        s += txt.ljust(34)
+    return s
+
+
+def e2e_expected_from_traces(c, data, proc='case', keep=None):
+    """Lines rebuilt from `traces()` consumed lazily: header from the first record and the tables at the yield + str(trace)."""
+    import io
+    p = e2e_parser(c, proc)
+    codes = {int(k): v for k, v in c['codes'].items()}
+    exp, err = [], '-'
+    try:
+        for t in p.traces(io.BytesIO(data), codes):
+            k0 = t.ktraces[0]
+            if keep is not None and not keep(p, k0.tid):
+                continue
+            exp.append(e2e_header_text(c, p, k0.tid, k0.timestamp) + str(t))
+    except Exception as e:
+        err = core.err_name(e)
+    return exp, err
+
+
+def e2e_expected_from_records(c):
+    """Lines rebuilt WITHOUT the container parser and without `traces()`: thread map -> tables (later entry wins), records
+    decoded field by field, fed to a TracesParser one by one, header + str(trace) after each feed.  No filters."""
+    whole = bytes.fromhex(c['whole'])
+    codes = {int(k): v for k, v in c['codes'].items()}
+    from pykdebugparser.kevent import Kevent
+
+    class Tabs:
+        threads_pids, pids_names = {}, {}
+    for tid, pid, name in c['tmap']:
+        Tabs.threads_pids[tid] = pid
+        Tabs.pids_names[pid] = name
+    tp = TracesParser(codes, Tabs.threads_pids, Tabs.pids_names)
+    exp, err = [], '-'
+    try:
+        for off in range(c['hdr'], len(whole), 64):
+            r = whole[off:off + 64]
+            dbg = int.from_bytes(r[48:52], 'little')
+            ev = Kevent(int.from_bytes(r[0:8], 'little'), r[8:40],
+                        tuple(int.from_bytes(r[8 + 8 * i:16 + 8 * i], 'little') for i in range(4)),
+                        int.from_bytes(r[40:48], 'little'), dbg, dbg - dbg % 4, dbg % 4)
+            t = tp.feed(ev)
+            if t is not None:
+                k0 = t.ktraces[0]
+                exp.append(e2e_header_text(c, Tabs, k0.tid, k0.timestamp) + str(t))
+    except Exception as e:
+        err = core.err_name(e)
+    return exp, err
+
+
+_E2E_CACHE = {}
+
+
+def e2e_cached_lines(c, k):
+    """lines of whole[:k] under the case's settings (the every-offset sweep asks for the same few prefixes again and again)."""
+    key = (c['whole'], k, c['tid'], tuple(c['classes']), tuple(c['subs']), c['proc'], c['bits'])
+    if key not in _E2E_CACHE:
+        if len(_E2E_CACHE) > 4000:
+            _E2E_CACHE.clear()
+        whole = bytes.fromhex(c['whole'])
+        _E2E_CACHE[key] = e2e_lines(c, whole if k is None else whole[:k])
+    return _E2E_CACHE[key]
+
+
+def e2e_show(lines, n=3):
+    return '%d lines %r' % (len(lines), [x[:60] for x in lines[:n]])
+
+
+def e2e_oracle(c, got):
+    """The composition properties stated on the real code alone (the Lean model is not consulted)."""
+    if not got.startswith('ok '):
+        return ('e2e:harness', 'formatted_traces could not be run: ' + got[:200])
+    lines, err = e2e_parse_answer(got)
+    data = bytes.fromhex(c['file'])
+    k, hdr = c['cut'], c['hdr']
+    # C06: truncation
+    if k is not None:
+        full, _ = e2e_cached_lines(c, None)
+        if lines != full[:len(lines)]:
+            return ('e2e:cut-not-prefix', 'cut at %d of %d: %s are not a prefix of the complete dump\'s %s'
+                    % (k, len(c['whole']) // 2, e2e_show(lines), e2e_show(full)))
+        if k >= hdr:
+            kb = hdr + 64 * ((k - hdr) // 64)
+            at_b, _ = e2e_cached_lines(c, kb)
+            if at_b != lines[:len(at_b)]:
+                return ('e2e:cut-not-monotone', 'the lines reported for the cut at %d (%s) are withdrawn by the longer cut at %d (%s)'
+                        % (kb, e2e_show(at_b), k, e2e_show(lines)))
+            if not c['k1'] and len(lines) != len(at_b):
+                return ('e2e:line-from-partial-record', 'cut at %d = record boundary %d + %d bytes: %d lines, but %d lines for '
+                        'the complete records alone' % (k, kb, k - kb, len(lines), len(at_b)))
+        elif lines and not c['k1']:
+            return ('e2e:line-before-first-record', 'cut at %d, first record at %d: %s' % (k, hdr, e2e_show(lines)))
+    # C14: formatted_traces adds nothing to / drops nothing from traces(); header = first record + tables at the yield
+    exp, exp_err = e2e_expected_from_traces(c, data)
+    if exp != lines or exp_err != err:
+        i = next((j for j, (a, b) in enumerate(zip(exp, lines)) if a != b), min(len(exp), len(lines)))
+        return ('e2e:line-shape', 'line %d of formatted_traces is %r, the trace\'s first record, the tables at its yield and '
+                'its text give %r (%d vs %d lines, exceptions %s / %s)'
+                % (i, lines[i][:120] if i < len(lines) else None, exp[i][:120] if i < len(exp) else None, len(lines),
+                   len(exp), err, exp_err))
+    plain = c['tid'] is None and not c['classes'] and not c['subs']
+    # C13: the process filter selects among the traces of the same request without it, judged at their yield
+    if c['proc'] is not None and plain:
+        fp = c['proc']
+
+        def keep(p, tid):
+            pid = p.threads_pids.get(tid, -1)
+            return fp == str(pid) or fp == p.pids_names.get(pid, '')
+        exp, exp_err = e2e_expected_from_traces(c, data, proc=None, keep=keep)
+        if exp != lines or exp_err != err:
+            return ('e2e:process-filter', 'process filter %r: %s, the matching traces of the unfiltered request: %s (exceptions %s / %s)'
+                    % (fp, e2e_show(lines), e2e_show(exp), err, exp_err))
+    # C02 (+C01): the container hands the trace layer exactly the thread map and the decoded records
+    if k is None and plain and c['proc'] is None and not c['k1']:
+        exp, exp_err = e2e_expected_from_records(c)
+        if exp != lines or exp_err != err:
+            return ('e2e:container-glue', 'whole dump: %s, but its thread map and its records fed to the decoders directly give %s '
+                    '(exceptions %s / %s)' % (e2e_show(lines), e2e_show(exp), err, exp_err))
+    return None
+
+
+def section_e2e(rep, rng, tier, n=None, oracle_fn=None, cuts=False, plain=0.0):
     n = n or (250 if tier == 'quick' else 8000)
-    cases = [e2e_case(rng) for _ in range(n)]
+    cases = [e2e_case(rng, plain=plain) for _ in range(n)]
+    cases += [e2e_case(rng, k1=True) for _ in range(max(4, n // 25))]
+    if cuts:
+        cases += e2e_cut_cases(rng, tier)
+
+    def oracle(c, got):
+        return e2e_oracle(c, got) or (oracle_fn(c, got) if oracle_fn else None)
     core.run_section(
-        rep, 'end-to-end', cases, line_fn=e2e_line, impl_fn=e2e_impl, oracle_fn=oracle_fn, skip_fn=lambda m: 'Unmodelled' in m,
+        rep, 'end-to-end', cases, line_fn=e2e_line, impl_fn=e2e_impl, oracle_fn=oracle, skip_fn=lambda m: 'Unmodelled' in m,
         nontrivial_fn=lambda c, got: not got.startswith('ok - '),
-        kind_fn=lambda c, got: ('cut' if c['cut'] is not None else 'whole') + ':' + got.rsplit(';err=', 1)[1],
-        rule='bytes of a version-2 dump (thread map, random operations, sometimes truncated) x tid / process / class / '
-             'subclass filters x the six show_* switches: the lines of PyKdebugParser.formatted_traces(BytesIO(file), codes) '
-             'with colour off vs the composition of the layer models (container -> event filter -> TracesParser -> post-filters '
-             '-> line builder), including the exception that ends the iteration',
-        sample_fn=lambda c: {k: c[k] for k in ('tid', 'classes', 'subs', 'proc', 'bits', 'cut')})
+        kind_fn=lambda c, got: ('cut' if c['cut'] is not None else 'whole') + (':k1' if c['k1'] else '') + ':'
+        + got.rsplit(';err=', 1)[1],
+        rule='bytes of a version-2 dump (thread map with duplicate keys, 0..12 bytes of padding, random operations, sometimes '
+             'truncated; with cuts=True a few small dumps cut at EVERY offset incl. magic, header, thread map, padding, and dumps '
+             'whose first record begins with zero bytes) x tid / process / class / subclass filters x the six show_* switches: the '
+             'lines of PyKdebugParser.formatted_traces(BytesIO(file), codes) with colour off vs the composition of the layer models '
+             '(container -> event filter -> TracesParser -> post-filters -> line builder), including the exception that ends the '
+             'iteration; oracles on the code alone: lines of the cut are a prefix of the lines of the whole dump, never withdrawn by '
+             'a longer cut, none from a partial record; every line = first record + tables at the yield + text of its trace; the '
+             'process filter selects among the unfiltered traces; the whole unfiltered dump = its records fed to the decoders',
+        sample_fn=lambda c: {kk: c[kk] for kk in ('tid', 'classes', 'subs', 'proc', 'bits', 'cut')})
+
+
+def replay_e2e(case, prop, path):
+    """Replay of a recorded end-to-end case (used by the check modules whose correspondence runs `section_e2e`)."""
+    got = e2e_impl(case)
+    model = core.drive([e2e_line(case)])[0]
+    res = e2e_oracle(case, got)
+    print('section: end-to-end')
+    print('settings:', {kk: case[kk] for kk in ('tid', 'classes', 'subs', 'proc', 'bits', 'cut', 'hdr', 'k1', 'tmap')})
+    print('file :', case['file'][:600] + ('…' if len(case['file']) > 600 else ''))
+    print('impl :', e2e_parse_answer(got) if got.startswith('ok ') else got[:2000])
+    print('model:', e2e_parse_answer(model) if model.startswith('ok ') else model[:2000])
+    if res:
+        print('oracle:', res[0], '-', res[1])
+        print(f'VIOLATION property={prop} replay={path}')
+        return 1
+    if got != model:
+        print('model and implementation differ on this input (no property oracle fires)')
+        return 1
+    print('no violation on this input')
+    return 0
